@@ -189,6 +189,8 @@ struct Ctx {
   std::string completed;          // completed bitfield as last seen (public API)
   uint32_t filler = 0;            // SocketManager::add_unmanaged_socket() calls to undo
   std::set<uint32_t> hashing;     // pieces seen in the hash queue
+  bool dq_hold = false;           // a delayed disconnect was queued and nothing has been pumped since
+  size_t dq_last = 0;             // m_disconnectQueue size as last observed (to report when the library ran the queue)
 };
 
 static int harness_sockets(Ctx& c) {
@@ -341,10 +343,20 @@ static std::string glob(Ctx& c, const KernelView& kv) {
   return o.str();
 }
 
+static size_t disc_queue_size(Ctx& c) {
+  if (c.removed || c.T == nullptr) return 0;
+  size_t n = 0;
+  for (auto& id : c.T->main()->connection_list()->m_disconnectQueue) { (void)id; n++; }
+  return n;
+}
+
 static std::string ledger(Ctx& c, bool remember_fd = false) {
   KernelView kv = kernel_view();
   std::string s;
   for (auto& p : c.peers) s += row(c, *p, kv, remember_fd) + " ";
+  // ConnectionList::m_disconnectQueue (ids queued by erase(.., disconnect_delayed)); kept out of the G: part: a stale id
+  // after a stop is not a resource
+  if (!c.removed) s += "DQ" + std::to_string(disc_queue_size(c)) + " ";
   return s + glob(c, kv);
 }
 
@@ -440,6 +452,7 @@ static int lib_unread_bytes(Ctx& c, SPeer& p) {
 
 static void pump_all(Ctx& c) {
   int idle = 0, settle_tries = 0;
+  c.dq_hold = false;
   for (int r = 0; r < 100000 && idle < 2; r++) {
     bool moved = false;
     for (auto& p : c.peers) {
@@ -466,6 +479,13 @@ static void pump_all(Ctx& c) {
     }
   }
   parse_wire(c);
+  // the scheduler ran DownloadMain::m_delay_disconnect_peers (ConnectionList::disconnect_queued) during this pump
+  // (also when it ran inside Session::advance_us just before this pump)
+  {
+    size_t dq_now = disc_queue_size(c);
+    if (c.dq_last > 0 && dq_now == 0 && !c.removed) c.ev.push_back("A:dfire");
+    c.dq_last = dq_now;
+  }
 }
 
 static void wait_hash(Ctx& c) {
@@ -555,6 +575,22 @@ static bool make_scenario(const std::string& name, Scenario& s) {
     if (name == "snub2") s.steps.push_back(A(0, "unsnub"));
     s.steps.push_back(B(0, "ka", 4));
     s.steps.push_back(B(0, "ni", 5));
+  } else if (name == "ddis") {
+    // the client disconnects an interested, unchoked peer with disconnect_delayed: the connection sits in
+    // ConnectionList::m_disconnectQueue until the scheduler runs disconnect_queued (next pump)
+    s.have = std::string(NP, '1');
+    s.steps = {A(0, "conn"), B(0, "hs", 68), B(0, "bf0", 6), B(0, "in", 5), A(0, "ddis"), B(0, "ka", 4), B(0, "ni", 5)};
+  } else if (name == "ddis2") {
+    // the same connection queued twice: the second queue entry finds no connection (find() == end() branch)
+    s.have = std::string(NP, '1');
+    s.steps = {A(0, "conn"), B(0, "hs", 68), B(0, "bf0", 6), B(0, "in", 5), A(0, "ddis"), A(0, "ddis"), B(0, "ka", 4)};
+  } else if (name == "ddisl") {
+    // delayed disconnect of a peer in the middle of a PIECE (chunk mapped, transfer leading its block) while a second
+    // peer stays connected
+    s.have = std::string(NP, '0');
+    s.npeers = 2;
+    s.steps = {A(0, "conn"), B(0, "hs", 68), B(0, "bf1", 6), B(0, "un", 5), B(0, "pp", 113),
+               A(1, "conn"), B(1, "hs", 68), B(1, "bf1", 6), B(1, "un", 5), A(0, "ddis"), B(1, "ka", 4), B(1, "ka", 4)};
   } else if (name == "sockfull") {
     // incoming connection while the socket budget is exhausted: refused at accept, the descriptor must be closed at once
     s.have = std::string(NP, '1');
@@ -676,6 +712,16 @@ static bool do_action(Ctx& c, const Step& st) {
       c.S->force_choke(pcb, st.kind == "snub");     // Peer::set_snubbed
       c.ev.push_back("A" + std::to_string(p.id) + ":" + st.kind);
       pump_all(c);
+    }
+  } else if (st.kind == "ddis") {
+    // Peer::disconnect(disconnect_delayed) = ConnectionList::erase(peer, disconnect_delayed): queued only; NOT pumped, so
+    // that a fault can hit while the connection sits in the queue
+    torrent::PeerConnectionBase* pcb = c.S->find_connection(c.T, p.ip, p.port);
+    if (pcb != nullptr) {
+      static_cast<torrent::Peer*>(pcb)->disconnect(torrent::ConnectionList::disconnect_delayed);
+      c.ev.push_back("A" + std::to_string(p.id) + ":ddis");
+      c.dq_hold = true;
+      c.dq_last = disc_queue_size(c);
     }
   } else if (st.kind == "sockmax") {
     auto* sm = torrent::runtime::socket_manager();
@@ -956,7 +1002,7 @@ static std::string run_case(const std::string& line) {
     if (no_drain_hit) break;
   }
   (void)stopped;
-  if (!no_drain_hit) pump_all(c);
+  if (!no_drain_hit && !c.dq_hold) pump_all(c);   // dq_hold: fault point 'queued for a delayed disconnect, queue not run yet'
   for (auto& p : c.peers)
     if (p->w.fd != -1 && p->w.eof) { c.ev.push_back("E" + std::to_string(p->id)); p->eof_reported = true; }   // the library hung up on the peer
 
